@@ -94,6 +94,25 @@ def run_cmd(cmd, cwd=None, timeout=1800, input=None):
     return p.returncode, p.stdout + p.stderr
 
 
+def build_private_driver(name: str):
+    """(call with the lake lock held) build drv_<name> and copy it to a private file, so that a
+    concurrent check of another tree, which may regenerate lean/Gen and rebuild the same target,
+    cannot swap the executable under this run"""
+    import atexit
+    import shutil
+
+    rc, log = run_cmd(["lake", "build", f"drv_{name}"], cwd=LEAN, timeout=3000)
+    exe = LEAN / ".lake" / "build" / "bin" / f"drv_{name}"
+    if rc != 0 or not exe.exists():
+        return None, log[-3000:]
+    d = VERIF / ".locks"
+    d.mkdir(exist_ok=True)
+    priv = d / f"drv_{name}_{os.getpid()}"
+    shutil.copy2(exe, priv)
+    atexit.register(lambda: priv.exists() and priv.unlink())
+    return priv, ""
+
+
 class LeanDriver:
     """Runs lean/Drivers/<name>.lean over a batch of JSON requests (one per line).
 
@@ -101,18 +120,16 @@ class LeanDriver:
     links) and the batch is split over several processes; if the executable cannot be built the
     same file is run by the interpreter (`lake env lean --run`), ~25x slower."""
 
-    def __init__(self, name: str):
+    def __init__(self, name: str, private_exe: Path | None = None):
         self.name = name
         self.path = LEAN / "Drivers" / f"{name}.lean"
         self.broken: str | None = None
         self.exe: Path | None = None
+        if private_exe is not None and private_exe.exists():
+            self.exe = private_exe
+            return
         with lake_lock():
-            rc, log = run_cmd(["lake", "build", f"drv_{name}"], cwd=LEAN, timeout=3000)
-        exe = LEAN / ".lake" / "build" / "bin" / f"drv_{name}"
-        if rc == 0 and exe.exists():
-            self.exe = exe
-        else:
-            self.build_log = log[-3000:]
+            self.exe, self.build_log = build_private_driver(name)
 
     def _run(self, data: str, timeout: int):
         cmd = [str(self.exe)] if self.exe else ["lake", "env", "lean", "--run", str(self.path)]
@@ -196,6 +213,9 @@ class Check:
             if rc != 0:
                 errs = re.findall(r"^error: (\S+?\.lean:\d+:\d+: .*)$", log, re.M)
                 self.broken.append({"what": "lake build " + " ".join(targets), "detail": "\n".join(errs[:20]) or log[-3000:]})
+            # the property's driver is built under the same lock (same lean/Gen as the theorems)
+            if (LEAN / "Drivers" / f"{self.prop}.lean").exists():
+                self._private_exe, _ = build_private_driver(self.prop)
             # audit (only meaningful when the build succeeded)
             if rc == 0:
                 self._audit(modules)
@@ -274,7 +294,9 @@ class Check:
 
     # ---- step 4 helpers
     def driver(self, name: str | None = None) -> LeanDriver:
-        return LeanDriver(name or self.prop)
+        name = name or self.prop
+        priv = getattr(self, "_private_exe", None) if name == self.prop else None
+        return LeanDriver(name, priv)
 
     def case(self, case, tag: str = "", nontrivial: bool = True):
         """Record one explored case (for the evidence)."""
